@@ -466,6 +466,8 @@ pub struct Explorer<'a> {
     pub failures: Vec<(Vec<usize>, String)>,
     pub max_exec: u64,
     pub capped: bool,
+    /// called before every execution (resets the per-execution watchdog)
+    pub tick: &'a dyn Fn(),
 }
 
 impl<'a> Explorer<'a> {
@@ -474,6 +476,7 @@ impl<'a> Explorer<'a> {
             self.capped = true;
             return;
         }
+        (self.tick)();
         let x = run_schedule(self.s, self.inp, &self.bodies, &prefix, self.private_copies);
         self.executions += 1;
         self.points_total += x.points.len() as u64;
@@ -733,7 +736,9 @@ pub fn run_c14(ctx: &Ctx, st: &mut Local) {
             }
             let expected: Vec<Vec<u64>> = bodies.iter().map(|b| b.iter().map(|&c| seq[c]).collect()).collect();
             // determinism of the controlled execution itself: the same schedule twice
+            ctx.begin(name, i, 60_000);
             let a = run_schedule(s, &inp, &bodies, &[], private);
+            ctx.begin(name, i, 60_000);
             let b = run_schedule(s, &inp, &bodies, &[], private);
             let ca: Vec<(usize, u32)> = a.points.iter().map(|p| (p.enabled.len(), p.site)).collect();
             let cb: Vec<(usize, u32)> = b.points.iter().map(|p| (p.enabled.len(), p.site)).collect();
@@ -742,8 +747,8 @@ pub fn run_c14(ctx: &Ctx, st: &mut Local) {
                     format!("two runs of the default schedule of {:?} hit different scheduling points ({} vs {})", bodies, ca.len(), cb.len()), &[]));
                 continue;
             }
-            ctx.begin(name, i, 7_200_000);
-            let mut ex = Explorer { s, inp: &inp, bodies: bodies.clone(), expected, bound, private_copies: private, executions: 0, points_total: 0, failures: Vec::new(), max_exec: if ctx.quick() { 8_000 } else { 80_000 }, capped: false };
+            let tick = || ctx.begin(name, i, 60_000);
+            let mut ex = Explorer { s, inp: &inp, bodies: bodies.clone(), expected, bound, private_copies: private, executions: 0, points_total: 0, failures: Vec::new(), max_exec: if ctx.quick() { 8_000 } else { 80_000 }, capped: false, tick: &tick };
             ex.explore(vec![]);
             ctx.end();
             let e = st.eng(name);
